@@ -33,7 +33,7 @@ META = dict(
     assumptions=['TZ=UTC, LC_ALL=C (weekday and month names)',
                  'date strings contain no white space when written as transaction dates (the journal tokenizer cuts there)',
                  'format strings use only the modelled directives and stay below 127 bytes when expanded',
-                 'an abbreviated name directive (%b %h %a) of an input format is not directly followed by literal letters completing the full name (finding F-C14-N1)'],
+                 'an abbreviated name directive (%b %h %a) of an input format is not directly followed by literal letters completing the full name (finding F222)'],
 )
 
 OUTF = '%Y-%m-%d %a %u %w %j %y %e %b %A %B'
@@ -823,7 +823,7 @@ def abbrev_continued(fmt, y, m, d):
     """does the text the format prints for this day hold an abbreviated name (%b %h %a) directly
     followed by literal characters that spell the rest of the FULL name (`%bch` in March, `%be` in
     June, `%aday` on a Sunday)?  strptime reads either form of a name for either directive, the full
-    name first (finding F-C14-N1)."""
+    name first (finding F222)."""
     wd = datetime.date(y, m, d).weekday()
     for mt in re.finditer(r'%([bha])((?:[^%]|%%)*)', fmt):
         full = WDFULL[wd] if mt.group(1) == 'a' else MONTHS[m - 1]
